@@ -26,11 +26,28 @@ pub struct Plan {
     #[serde(default)]
     pub perturb: Vec<Perturb>,
     pub horizon_us: u64,
+    /// Net (default): peers and spectators over the simulated network. SyncTest: one
+    /// SyncTestSession, no network, no clock.
+    #[serde(default)]
+    pub mode: Mode,
     /// random per-packet loss/duplication only happens before this instant
     #[serde(default)]
     pub random_faults_until_us: Option<u64>,
     #[serde(default)]
     pub oracle: OracleCfg,
+}
+
+#[derive(Serialize, Deserialize, Clone, Debug, PartialEq, Default)]
+pub enum Mode {
+    #[default]
+    Net,
+    SyncTest {
+        check_distance: usize,
+        frames: u32,
+        /// the configuration is invalid by the documentation: the builder must return InvalidRequest
+        #[serde(default)]
+        expect_reject: bool,
+    },
 }
 
 #[derive(Serialize, Deserialize, Clone, Debug, PartialEq)]
@@ -279,6 +296,10 @@ impl Default for OracleCfg {
 }
 
 #[derive(Serialize, Deserialize, Clone, Debug, PartialEq)]
+/// After `heal_us` no fault is injected any more. Between the midpoint of [heal, deadline] and
+/// the deadline every regularly ticked session must advance at least `min_frames` frames: a
+/// wedge is permanent and advances none, while a session that is merely slow (lockstep over a
+/// long link) is not flagged.
 pub struct Liveness {
     pub heal_us: u64,
     pub deadline_us: u64,
